@@ -394,8 +394,17 @@ def _direct_task(task):
     return (code, policy), st
 
 
-def _pool(n):
-    return mp.get_context("fork").Pool(min(n, os.cpu_count() or 4))
+def _pmap(fn, tasks, n, timeout_s=3 * 3600):
+    """pool.map on a fork pool that is joined before returning (no handler thread of this pool is alive when the next pool forks)
+    and that cannot hang for ever: a lost worker makes the bounded function crash (exit 3) instead"""
+    pool = mp.get_context("fork").Pool(min(n, os.cpu_count() or 4, max(1, len(tasks))))
+    try:
+        res = pool.map_async(fn, tasks, chunksize=1).get(timeout=timeout_s)
+        pool.close()
+    finally:
+        pool.terminate()
+        pool.join()
+    return res
 
 
 _CACHE = {}
@@ -414,12 +423,12 @@ def handle_segment_direct(tier, seed):
         for pol in policy_options(code):
             # the segment type plays no role in _handle_segment: full length on the first type of each rule, shorter strings on the others;
             # 'consistent' multiplies by the reachable memory states: one length shorter
-            full, other = (5, 3) if tier == "quick" else (5, 5)
+            # (CP02..CP05 inherit _handle_segment unchanged -- an EXTRA obligation -- so the quick tier runs length 5 under CP01 and CP02 only)
+            full, other = ((5, 3) if code in ("CP01", "CP02") else (4, 3)) if tier == "quick" else (5, 5)
             if pol == "consistent":
                 full, other = full - 1, min(other, full - 1)
             tasks.append((code, pol, full, other, 3))
-    with _pool(16) as pool:
-        res = pool.map(_direct_task, tasks, chunksize=1)
+    res = _pmap(_direct_task, tasks, 16, 1800)
     fails = Fails()
     calls = fixes = 0
     by_branch, samples, table = {}, [], {}
@@ -440,7 +449,8 @@ def handle_segment_direct(tier, seed):
                   f"CP02/CP03/CP05: {policy_options('CP02')}), on every segment type the real linter handed to that rule for the prototype query "
                   f"{PROTO_SQL!r} ({ {c: sorted(v) for c, v in _DIRECT['protos'].items()} }); policy 'consistent' on each of the {mems} memory states "
                   f"reachable from the empty memory (closure over {MEMORY_SEEDS}), strings of length <= 4. "
-                  + ("Quick tier: length 5 only on the first segment type of each rule, length <= 3 on its other types" if tier == "quick" else "All lengths on every type")),
+                  + ("Quick tier: length 5 only under CP01 and CP02 (which between them offer every policy value) on their first segment type, length <= 4 "
+                     "under CP03..CP05, length <= 3 on the other segment types of a rule" if tier == "quick" else "All lengths on every type")),
         "rule": RULE,
         "exhaustive": True,
         "evaluations": calls,
@@ -821,8 +831,7 @@ def linter_runs(tier, seed):
         tasks.append(("tok", d, [(label, sql, list(rule_pols))]))
     tasks.sort(key=lambda t: -sum(len(s) * len(p) for _, s, p in t[2]))
     # parsing does not scale beyond ~6 concurrent processes in this sandbox (mmap/munmap heavy)
-    with _pool(6) as pool:
-        results = pool.map(_lint_task, tasks, chunksize=1)
+    results = _pmap(_lint_task, tasks, 6, 1200 if tier == "quick" else 6 * 3600)
     fails = Fails()
     agg, anchors = Counter(), Counter()
     samples, walls, spy_table, changed = [], [], set(), set()
@@ -982,8 +991,10 @@ def clause_verdicts(tier, seed):
             todo.append((clause, (det["dialect"], det.get("policy") or det.get("e2e_policy"), det["sql"], clause, cls)))
     shrunk = {}
     if todo:
-        with _pool(6) as pool:
-            res = pool.map(_shrink_task, [t for _, t in todo], chunksize=1)
+        try:
+            res = _pmap(_shrink_task, [t for _, t in todo], 6, 300)
+        except mp.TimeoutError:         # shrinking is a convenience: report the unshrunk witnesses rather than nothing
+            res = [(t[2], 0, "shrink pool timed out") for _, t in todo]
         for (clause, t), (sql, evals, ok) in zip(todo, res):
             shrunk[clause] = (t, sql, evals, ok)
     failed = []
@@ -1132,6 +1143,9 @@ def crawl_targets(tier, seed):
                 bad.append(f"CP01._exclude_parent_types misses {sorted(missing)}")
         if code == "CP02" and "literal" not in cls._exclude_types:
             bad.append("CP02._exclude_types does not exclude 'literal'")
+        for meth in ("_handle_segment", "_init_capitalisation_policy"):
+            if code != "CP01" and meth in vars(cls):
+                bad.append(f"{code} overrides {meth} (the layer 1 contract is driven through the inherited CP01 method)")
         if not set(policy_options(code)) <= set(E2E_POLICIES):
             bad.append(f"policy option outside {E2E_POLICIES}: {sorted(set(policy_options(code)) - set(E2E_POLICIES))}")
         ob(f"C15/crawl-targets/{code}", bad, {"rule": code, "crawl_types": sorted(types), "_exclude_types": list(cls._exclude_types),
